@@ -176,9 +176,20 @@ def handleCompile (j : Json) : Except String Json := do
     pure (ok ([("out", Json.str "ok"), ("api", apiToJson api), ("closed", Json.bool api.closed)] ++ den))
   | .error e => pure (ok [("out", Json.str "error"), ("kind", Json.str (errName e))])
 
+/-- the hypothesis of the theorems of Props/C02Compile.lean (`compile fs = .ok api`) and their decidable conclusions,
+evaluated on one input -/
+def handleHyps (j : Json) : Except String Json := do
+  let (rx, files) ← parseReq j
+  match compile rx files with
+  | .ok api =>
+    pure (ok [("compile_ok", Json.bool true), ("closed", Json.bool api.closed),
+              ("denote_equal", Json.bool (denote rx files == some api))])
+  | .error e => pure (ok [("compile_ok", Json.bool false), ("kind", Json.str (errName e))])
+
 def handle (op : String) (j : Json) : Except String Json :=
   match op with
   | "comp.compile" => handleCompile j
+  | "comp.hyps" => handleHyps j
   | _ => throw s!"unknown op {op}"
 
 end Driver.Comp
